@@ -185,6 +185,15 @@ def run(ctx):
             ctx.broken_obligation('Properties_C01.vo', getattr(ctx, 'broken', {}))
         if os.path.exists(os.path.join(lib.COQ, 'Properties', 'Properties_C01b.v')) and not ctx.check_theorems(prop_module='Properties_C01b'):
             ctx.broken_obligation('Properties_C01b.vo', getattr(ctx, 'broken', {}))
+        if os.path.exists(os.path.join(lib.COQ, 'Properties', 'Properties_C01c.v')):
+            # T5: verifier.c leaves regenerated from the clang AST and re-proved equal to the hand model
+            from . import c01c_util
+            ok, msg = c01c_util.regen_leaves(ctx)
+            ctx.log('T5 leaves: %s' % (msg if not ok else 'regenerated, Properties_C01c re-checked'))
+            if not ok:
+                w = c01c_util.LAST.get('witnesses') or []
+                if w: ctx.violation('leaf:' + w[0]['leaf'], msg, w[0])
+                else: ctx.broken_obligation('Properties_C01c.vo', dict(c01c_util.LAST, message=msg))
     fl = {'objs': ctx.rt_objs(san=True, defs=['-DNDEBUG'])}
 
     nfixed, nrand = (10, 10) if ctx.thorough else (4, 2)
